@@ -313,7 +313,7 @@ pub fn name_match(descriptors: &[String], name: &str) -> bool {
 pub struct Quirks {
     /// (repaired in rFSM, kept for experiments) an erroring <if>/<elseif> condition raises no error.execution
     pub if_cond_error_silent: bool,
-    /// rFSM (open finding): an erroring <log> expression aborts the block but raises no error.execution
+    /// (repaired in rFSM, kept for experiments) an erroring <log> expression aborts the block but raises no error.execution
     pub value_error_silent: bool,
 }
 
@@ -322,7 +322,7 @@ impl Quirks {
     /// comparable. Every place where a quirk changes the prediction is recorded in `Interp::quirk_hits`
     /// and reported by the owning property's check.
     pub fn rfsm() -> Quirks {
-        Quirks { if_cond_error_silent: false, value_error_silent: true }
+        Quirks { if_cond_error_silent: false, value_error_silent: false }
     }
 }
 
